@@ -702,3 +702,231 @@ Qed.
 (* the BN254 generator (1, 2) satisfies the hypotheses of [g1_roundtrip] *)
 Example g1_generator_valid : 0 <= 1 < P /\ 0 <= 2 < P /\ (2 * 2) mod P = (1 * 1 * 1 + 3) mod P.
 Proof. vm_compute. repeat split; congruence. Qed.
+
+(* ---------------- G2 instances with Prop-level statements ---------------- *)
+Theorem decompress2_total insub m : m <> [] ->
+  match decompress2 P (sqrt_gfp2 P) insub m with
+  | R2 Inf2 => True
+  | R2 (Aff2 x y) => ok2 P x /\ ok2 P y /\
+      mul2 P y y = add2 P (mul2 P (mul2 P x x) x) twistB
+  | Err2 => True
+  | Panic2 | Hang2 => False
+  end.
+Proof.
+  intros Hm. destruct P_facts as [F1 [F2 F3]].
+  pose proof (decompress2_total_gen P insub m ltac:(lia) Hm) as T.
+  destruct (decompress2 P (sqrt_gfp2 P) insub m) as [[|x y]| | |]; try exact T; try exact I.
+  cbn [valid2] in T. rewrite !andb_true_iff, !in_range2_iff in T.
+  destruct T as [[X Y] T]. unfold on_twist in T. apply eq2_eq in T. auto.
+Qed.
+
+Lemma valid2_iff p x y : valid2 p (Aff2 x y) = true <->
+  (ok2 p x /\ ok2 p y /\ mul2 p y y = add2 p (mul2 p (mul2 p x x) x) twistB).
+Proof.
+  cbn [valid2]. unfold on_twist. rewrite !andb_true_iff, !in_range2_iff, eq2_eq. tauto.
+Qed.
+
+(* the generator of G2 (bn256 twistGen) satisfies the hypotheses of [g2_roundtrip] *)
+Example g2_generator_valid :
+  let x := (10857046999023057135944570762232829481370756359578518086990519993285655852781,
+            11559732032986387107991004021392285783925812861821192530917403151452391805634) in
+  let y := (8495653923123431417604973247489272438418190587263600148770280649306958101930,
+            4082367875863433681332203403145435568316851327593401208105741076214120093531) in
+  valid2 P (Aff2 x y) = true /\ snd y <> 0.
+Proof. vm_compute. split; congruence. Qed.
+
+(* ================================================================== *)
+(* the BigZ mirror used by Concrete.judge computes the same functions *)
+Lemma mul2B_spec pb a b :
+  toZ2 (mul2B pb a b) = mul2 (BigZ.to_Z pb) (toZ2 a) (toZ2 b).
+Proof.
+  unfold mul2B, mul2, toZ2. cbn [fst snd].
+  rewrite !BigZ.spec_modulo, BigZ.spec_sub, BigZ.spec_add, !BigZ.spec_modulo, !BigZ.spec_mul.
+  reflexivity.
+Qed.
+Lemma pow_posB_spec pb q : forall e b,
+  toZ2 (pow_posB pb e b q) = pow_pos (BigZ.to_Z pb) (toZ2 e) (toZ2 b) q.
+Proof.
+  induction q as [q IH|q IH|]; intros e b; cbn [pow_posB pow_pos].
+  - rewrite IH, !mul2B_spec. reflexivity.
+  - rewrite IH, !mul2B_spec. reflexivity.
+  - apply mul2B_spec.
+Qed.
+Lemma toZ2_one : toZ2 (1, 0)%bigZ = (1, 0).
+Proof. reflexivity. Qed.
+Lemma toZ2_ofZ2 a : toZ2 (ofZ2 a) = a.
+Proof. destruct a. unfold toZ2, ofZ2. cbn [fst snd]. rewrite !BigZ.spec_of_Z. reflexivity. Qed.
+Lemma x2yB_spec pb x y : x2yB pb x y = x2y (BigZ.to_Z pb) (toZ2 x) (toZ2 y).
+Proof.
+  unfold x2yB, x2y, eq2. cbv zeta. rewrite !BigZ.spec_eqb.
+  change (pow2 (BigZ.to_Z pb) (toZ2 y) 2) with (pow_pos (BigZ.to_Z pb) (1, 0) (toZ2 y) 2).
+  rewrite <- toZ2_one, <- pow_posB_spec. reflexivity.
+Qed.
+Lemma sqrt_loopB_spec pb hr n : toZ2 hr = hexRoot -> forall x y,
+  option_map toZ2 (sqrt_loopB pb hr n x y) = sqrt_loop (BigZ.to_Z pb) n (toZ2 x) (toZ2 y).
+Proof.
+  intros Hh. induction n as [|n IH]; intros x y; cbn [sqrt_loopB sqrt_loop]; [reflexivity|].
+  rewrite x2yB_spec. destruct (x2y _ _ _); [reflexivity|].
+  rewrite IH, mul2B_spec, Hh. reflexivity.
+Qed.
+Lemma powmodB_spec pb a e :
+  BigZ.to_Z (powmodB pb a e) = powmod (BigZ.to_Z pb) (BigZ.to_Z a) e.
+Proof.
+  induction e as [e IH|e IH|]; cbn [powmodB powmod].
+  - rewrite !BigZ.spec_modulo, BigZ.spec_mul, BigZ.spec_modulo, BigZ.spec_mul, IH. reflexivity.
+  - rewrite BigZ.spec_modulo, BigZ.spec_mul, IH. reflexivity.
+  - apply BigZ.spec_modulo.
+Qed.
+
+Theorem mod_sqrt_big_eq p c : mod_sqrt_big p c = mod_sqrt p c.
+Proof.
+  unfold mod_sqrt_big, mod_sqrt. destruct ((p + 1) / 4); try reflexivity.
+  rewrite powmodB_spec, !BigZ.spec_of_Z. reflexivity.
+Qed.
+
+Lemma pow2_unfold p x q : pow2 p x (Z.pos q) = pow_pos p (1, 0) x q.
+Proof. reflexivity. Qed.
+
+Theorem sqrt_gfp2_big_eq p x : sqrt_gfp2_big p x = sqrt_gfp2 p x.
+Proof.
+  rewrite sqrt_gfp2_unfold. unfold sqrt_gfp2_big. cbv zeta.
+  rewrite sqrt_loopB_spec by apply toZ2_ofZ2.
+  rewrite BigZ.spec_of_Z, toZ2_ofZ2. f_equal.
+  rewrite sqrtExp_is_pos, pow2_unfold.
+  rewrite pow_posB_spec, toZ2_one, toZ2_ofZ2, BigZ.spec_of_Z. reflexivity.
+Qed.
+
+(* the judge only applies its square-root arguments: extensionally equal ones give the same verdict *)
+Section Ext.
+  Variable p : Z.
+  Variables (ms ms' : Z -> option Z) (sq sq' : gfp2 -> option gfp2).
+  Hypothesis Hms : forall c, ms c = ms' c.
+  Hypothesis Hsq : forall x, sq x = sq' x.
+  Lemma decompress1_ext m : decompress1 p ms m = decompress1 p ms' m.
+  Proof. destruct m; [reflexivity|]. cbv beta iota zeta delta [decompress1]. rewrite Hms. reflexivity. Qed.
+  Lemma decompress2_ext insub m : decompress2 p sq insub m = decompress2 p sq' insub m.
+  Proof. destruct m; [reflexivity|]. cbv beta iota zeta delta [decompress2]. rewrite Hsq. reflexivity. Qed.
+  Lemma hash_loop_ext fuel : forall x, hash_loop p ms fuel x = hash_loop p ms' fuel x.
+  Proof.
+    induction fuel as [|f IH]; intros x; cbn [hash_loop]; [reflexivity|]. rewrite Hms, IH. reflexivity.
+  Qed.
+  Lemma agree_ext c : agree p ms sq c = agree p ms' sq' c.
+  Proof.
+    destruct c; cbn [agree]; unfold agree_dec2, dec2, hash_to_point;
+      rewrite ?decompress1_ext, ?decompress2_ext, ?hash_loop_ext; reflexivity.
+  Qed.
+  Lemma judge_ext c : judge p ms sq c = judge p ms' sq' c.
+  Proof. unfold judge. rewrite agree_ext. reflexivity. Qed.
+End Ext.
+
+Theorem judge_big_eq c : Concrete.judge c = Concrete.judge_Z c.
+Proof.
+  unfold Concrete.judge, Concrete.judge_Z.
+  apply judge_ext; [apply mod_sqrt_big_eq|apply sqrt_gfp2_big_eq].
+Qed.
+
+(* ================================================================== *)
+(* soundness of the executable property *)
+Lemma point1_eqb_eq a b : point1_eqb a b = true <-> a = b.
+Proof.
+  destruct a, b; cbn [point1_eqb]; try (split; [discriminate|congruence]); try tauto.
+  rewrite andb_true_iff, !Z.eqb_eq. split; [intros [-> ->]; reflexivity|intros [= -> ->]; auto].
+Qed.
+Lemma point2_eqb_eq a b : point2_eqb a b = true <-> a = b.
+Proof.
+  destruct a, b; cbn [point2_eqb]; try (split; [discriminate|congruence]); try tauto.
+  rewrite andb_true_iff, !eq2_eq. split; [intros [-> ->]; reflexivity|intros [= -> ->]; auto].
+Qed.
+Lemma res1_eqb_R1 d pt : res1_eqb d (R1 pt) = true <-> d = R1 pt.
+Proof.
+  destruct d; cbn [res1_eqb]; try (split; [discriminate|congruence]).
+  rewrite point1_eqb_eq. split; congruence.
+Qed.
+Lemma res2_eqb_R2 d pt : res2_eqb d (R2 pt) = true <-> d = R2 pt.
+Proof.
+  destruct d; cbn [res2_eqb]; try (split; [discriminate|congruence]).
+  rewrite point2_eqb_eq. split; congruence.
+Qed.
+
+Theorem spec_sound c : spec P c = true ->
+  match c with
+  | CRound1 pt _ d => d = R1 pt
+  | CRound2 pt _ d => d = R2 pt
+  | CDec1 _ d =>
+      match d with
+      | R1 Inf1 | Err1 => True
+      | R1 (Aff1 x y) => 0 <= x < P /\ 0 <= y < P /\ (y * y) mod P = (x * x * x + 3) mod P
+      | _ => False
+      end
+  | CDec2 _ d =>
+      match d with
+      | R2 Inf2 | Err2 => True
+      | R2 (Aff2 x y) => ok2 P x /\ ok2 P y /\ mul2 P y y = add2 P (mul2 P (mul2 P x x) x) twistB
+      | _ => False
+      end
+  | CHash _ pt rep =>
+      exists x y, pt = R1 (Aff1 x y) /\ rep = pt /\
+        0 <= x < P /\ 0 <= y < P /\ (y * y) mod P = (x * x * x + 3) mod P
+  end.
+Proof.
+  destruct c as [pt c d|pt c d|m d|m d|h pt rep]; cbn [spec]; intros H.
+  - apply res1_eqb_R1. exact H.
+  - apply res2_eqb_R2. exact H.
+  - destruct d as [[|x y]| | |]; try exact I; try discriminate. apply valid1_iff. exact H.
+  - destruct d as [[|x y]| | |]; try exact I; try discriminate. apply valid2_iff. exact H.
+  - apply andb_true_iff in H. destruct H as [H1 H2].
+    destruct pt as [[|x y]| | |]; try discriminate.
+    exists x, y. split; [reflexivity|]. split; [|apply valid1_iff; exact H2].
+    destruct rep as [q| | |]; cbn [res1_eqb] in H1; try discriminate.
+    apply point1_eqb_eq in H1. congruence.
+Qed.
+
+(* the property holds of every output of the model *)
+Theorem spec_holds_of_model :
+  (prime P -> forall x y c, valid1 P (Aff1 x y) = true ->
+     spec P (CRound1 (Aff1 x y) c (decompress1 P (mod_sqrt P) (compress1 (Aff1 x y)))) = true) /\
+  (prime P -> forall x y c, valid2 P (Aff2 x y) = true -> snd y <> 0 ->
+     spec P (CRound2 (Aff2 x y) c (dec2 P (sqrt_gfp2 P) (compress2 (Aff2 x y)) true)) = true) /\
+  (forall m, m <> [] -> spec P (CDec1 m (decompress1 P (mod_sqrt P) m)) = true) /\
+  (forall m o, m <> [] -> spec P (CDec2 m (dec2 P (sqrt_gfp2 P) m o)) = true) /\
+  (forall fuel h r, hash_to_point P (mod_sqrt P) fuel h = Some r -> spec P (CHash h r r) = true).
+Proof.
+  destruct P_facts as [F1 [F2 F3]].
+  split; [|split; [|split; [|split]]].
+  - intros HP x y c V. cbn [spec]. apply valid1_iff in V. destruct V as [Hx [Hy E]].
+    rewrite (g1_roundtrip HP x y Hx Hy E). apply res1_eqb_R1. reflexivity.
+  - intros HP x y c V Hy. cbn [spec]. unfold dec2.
+    rewrite (g2_roundtrip HP (fun _ _ => true) x y V Hy eq_refl). apply res2_eqb_R2. reflexivity.
+  - intros m Hm. cbn [spec]. pose proof (decompress1_total_gen P m ltac:(lia) Hm) as T.
+    destruct (decompress1 P (mod_sqrt P) m); try exact T; try reflexivity; contradiction.
+  - intros m o Hm. cbn [spec]. unfold dec2.
+    pose proof (decompress2_total_gen P (fun _ _ => o) m ltac:(lia) Hm) as T.
+    destruct (decompress2 P (sqrt_gfp2 P) (fun _ _ => o) m); try exact T; try reflexivity; contradiction.
+  - intros fuel h r H. apply hash_to_point_on_curve in H. destruct H as [x [y [-> V]]].
+    cbn [spec]. rewrite V. cbn [res1_eqb point1_eqb]. rewrite !Z.eqb_refl. reflexivity.
+Qed.
+
+(* ---------------- the guards of the G2 round trip are necessary ---------------- *)
+(* a point of the twist with a real y (imaginary part 0): y and -y have the same parity flag,
+   so the encoding cannot tell them apart and one of the two does not round-trip *)
+Definition real_y_x : gfp2 :=
+  (16860447915893908144745022668869170094024604054612144315750478855813820146550,
+   18807563779788613928316331866962986488771121879176364591366657151207493717790).
+Theorem g2_roundtrip_real_y_refuted : exists x y,
+  valid2 P (Aff2 x y) = true /\ snd y = 0 /\ y <> (0, 0) /\
+  forall insub, decompress2 P (sqrt_gfp2 P) insub (compress2 (Aff2 x y)) <> R2 (Aff2 x y).
+Proof.
+  exists real_y_x, (P - 4, 0). split; [vm_compute; reflexivity|]. split; [reflexivity|].
+  split; [discriminate|]. intros insub.
+  rewrite (decompress2_ext P (sqrt_gfp2 P) (sqrt_gfp2_big P))
+    by (intros; symmetry; apply sqrt_gfp2_big_eq).
+  vm_compute. destruct (insub _ _); intros E; discriminate E.
+Qed.
+
+Theorem g2_identity_roundtrip_refuted insub :
+  decompress2 P (sqrt_gfp2 P) insub (compress2 Inf2) = Err2.
+Proof.
+  rewrite (decompress2_ext P (sqrt_gfp2 P) (sqrt_gfp2_big P))
+    by (intros; symmetry; apply sqrt_gfp2_big_eq).
+  vm_compute. reflexivity.
+Qed.
